@@ -127,6 +127,29 @@ impl<'de> serde::Deserialize<'de> for LocaleServerFnOutputClient {
     }
 }
 
+/// Push `s` as a string literal that is valid JSON / JavaScript and can be embedded in a `<script>` element:
+/// quotes, backslashes and control characters are escaped, and so are `<`, `>`, `&` (the text can't end the
+/// script element or open a comment) and U+2028 / U+2029 (line terminators for some JavaScript parsers).
+#[cfg(all(feature = "dynamic_load", any(feature = "ssr", feature = "hydrate")))]
+fn push_js_str(buff: &mut String, s: &str) {
+    use std::fmt::Write;
+    buff.push('"');
+    for c in s.chars() {
+        match c {
+            '"' => buff.push_str("\\\""),
+            '\\' => buff.push_str("\\\\"),
+            '\n' => buff.push_str("\\n"),
+            '\r' => buff.push_str("\\r"),
+            '\t' => buff.push_str("\\t"),
+            c if c < ' ' || matches!(c, '<' | '>' | '&' | '\u{2028}' | '\u{2029}') => {
+                let _ = write!(buff, "\\u{:04x}", c as u32);
+            }
+            c => buff.push(c),
+        }
+    }
+    buff.push('"');
+}
+
 #[cfg(all(feature = "dynamic_load", feature = "ssr"))]
 mod register {
     use super::*;
@@ -164,23 +187,21 @@ mod register {
                 if !std::mem::replace(&mut first, false) {
                     buff.push(',');
                 }
-                buff.push_str("{\"locale\":\"");
-                buff.push_str(locale.as_str());
+                buff.push_str("{\"locale\":");
+                push_js_str(&mut buff, locale.as_str());
                 if let Some(id_str) = TranslationUnitId::to_str(*id) {
-                    buff.push_str("\",\"id\":\"");
-                    buff.push_str(id_str);
-                    buff.push_str("\",\"values\":[");
+                    buff.push_str(",\"id\":");
+                    push_js_str(&mut buff, id_str);
+                    buff.push_str(",\"values\":[");
                 } else {
-                    buff.push_str("\",\"id\":null,\"values\":[");
+                    buff.push_str(",\"id\":null,\"values\":[");
                 }
                 let mut first = true;
                 for value in *values {
                     if !std::mem::replace(&mut first, false) {
                         buff.push(',');
                     }
-                    buff.push('\"');
-                    buff.push_str(value);
-                    buff.push('\"');
+                    push_js_str(&mut buff, value);
                 }
                 buff.push_str("]}");
             }
@@ -221,23 +242,21 @@ pub fn init_translations<L: Locale>() -> impl leptos::IntoView {
         if !std::mem::replace(&mut first, false) {
             buff.push(',');
         }
-        buff.push_str("{\"locale\":\"");
-        buff.push_str(locale.as_str());
+        buff.push_str("{\"locale\":");
+        push_js_str(&mut buff, locale.as_str());
         if let Some(id_str) = crate::locale_traits::TranslationUnitId::to_str(id) {
-            buff.push_str("\",\"id\":\"");
-            buff.push_str(id_str);
-            buff.push_str("\",\"values\":[");
+            buff.push_str(",\"id\":");
+            push_js_str(&mut buff, id_str);
+            buff.push_str(",\"values\":[");
         } else {
-            buff.push_str("\",\"id\":null,\"values\":[");
+            buff.push_str(",\"id\":null,\"values\":[");
         }
         let mut first = true;
         for value in &values {
             if !std::mem::replace(&mut first, false) {
                 buff.push(',');
             }
-            buff.push('\"');
-            buff.push_str(value);
-            buff.push('\"');
+            push_js_str(&mut buff, value);
         }
         buff.push_str("]}");
         L::init_translations(locale, id, values);
